@@ -231,6 +231,26 @@ def leaf_node(leaf):
     return (op, ref, lin, name, dom, ran)
 
 
+def alias_unsafe_leaves(env):
+    """Names of the leaves of this environment for which leaf(y, out=y) differs from leaf(x) (measured once)."""
+    if getattr(env, '_alias_unsafe', None) is None:
+        bad = []
+        for name, lop, _ref, dom, ran, _lin in env.leaves():
+            if util.is_field(ran) or dom != ran:
+                continue
+            try:
+                x = env.rv(dom)
+                want = np.asarray(lop(x)).copy()
+                y = x.copy()
+                lop(y, out=y)
+                if not np.allclose(np.asarray(y), want, rtol=1e-12, atol=1e-12):
+                    bad.append(name)
+            except Exception:
+                bad.append(name)
+        env._alias_unsafe = bad
+    return env._alias_unsafe
+
+
 def evaluate(ctx, env, node, comp, cfg):
     op, ref, lin, txt, dom, ran = node
     ctx.ev('reference-interpreter')
@@ -269,6 +289,22 @@ def evaluate(ctx, env, node, comp, cfg):
                 ctx.violation(comp, cfg, 'not-out', expr=txt)
             if not np.allclose(np.asarray(out), exp, rtol=1e-9, atol=1e-9 * sc):
                 ctx.violation(comp, cfg, 'inplace-value', expr=txt, got=np.asarray(out), ref=np.asarray(exp))
+        if not util.is_field(ran) and dom == ran:
+            # the expression applied in place to its own input, op(y, out=y): the expression classes take temporaries so that
+            # this works whenever the leaves themselves tolerate it (measured per leaf on the spot)
+            y2 = x.copy()
+            try:
+                op(y2, out=y2)
+                if not np.allclose(np.asarray(y2), exp, rtol=1e-9, atol=1e-9 * sc):
+                    unsafe = [nm for nm in alias_unsafe_leaves(env) if nm in txt]
+                    if unsafe:
+                        ctx.skip('aliased evaluation: a leaf of the expression is itself not alias-safe')
+                    else:
+                        ctx.violation(comp, cfg, 'aliased-inplace-value', expr=txt, got=np.asarray(y2), ref=np.asarray(exp))
+                else:
+                    ctx.note_add('aliased_evaluations_agreeing')
+            except (odl.OpNotImplementedError, NotImplementedError):
+                pass
         if op.is_linear and not util.is_field(dom):
             ctx.ev('flag-honesty')
             y = env.rv(dom)
